@@ -440,6 +440,7 @@ Section Tables.
   Variable fmem : frame -> Z.
   Variable dirsize : Z.
   Variable ou pu : bool.
+  Variable copies : bool.   (* regenerated: TableStorage.get hands out a COPY of the cached DataFrame (Table.__init__ copies) *)
 
   Definition tcache := cache frame.
 
@@ -477,7 +478,18 @@ Section Tables.
   | TOSet (n : name) (f : frame) (t1 t2 : Z) (ch1 ch2 : list name)
   | TOGet (n : name) (t : Z) (ch : list name)
   | TOUnload (n : name)
-  | TOReopen (mx : Z).
+  | TOReopen (mx : Z)
+  | TOModify (n : name) (f : frame).   (* the caller changes, in place, the table it fetched for key n into f; nothing is stored *)
+
+  (* if get handed out the cached object itself, the cached contents change with it (the recorded size does not) *)
+  Definition alias_modify (s : tcache) (n : name) (f : frame) : tcache :=
+    mkC frame (c_disk frame s)
+        (map (fun ne => if name_eqb (fst ne) n
+                        then (fst ne, match e_fut frame (snd ne) with
+                                      | FOk _ => mkE frame (e_writing frame (snd ne)) (e_bytes frame (snd ne)) (FOk f)
+                                      | _ => snd ne end)
+                        else ne) (c_entries frame s))
+        (c_heap frame s) (c_mem frame s) (c_max frame s).
 
   Definition tbl_step (s : tcache) (o : top) : tcache * tres :=
     match o with
@@ -485,6 +497,7 @@ Section Tables.
     | TOGet n t ch => tbl_get s n t ch
     | TOUnload n => (unload_file frame s n, TNone)
     | TOReopen mx => (reopen frame s mx, TNone)
+    | TOModify n f => (if copies then s else alias_modify s n f, TNone)
     end.
 
   Fixpoint tbl_run (s : tcache) (ops : list top) : tcache * list tres :=
@@ -512,6 +525,7 @@ Section Tables.
         end
     | TOUnload _ => (s, TNone)
     | TOReopen mx => (mkS frame (s_map frame s) (if Z.eqb mx 0 then default_max else mx), TNone)
+    | TOModify _ _ => (s, TNone)          (* a fetched value is the caller's own: the dictionary does not change *)
     end.
 
   Fixpoint tspec_run (s : sstate frame) (ops : list top) : sstate frame * list tres :=
